@@ -159,6 +159,10 @@ class C09(Prop):
             return bad[0], "%s: %s" % (what, bad[1])
         names = tr.names()
         last = tr.events[-1]
+        injected = {}
+        for att in tr.sim.scn.get("attempts", []):
+            injected.update(att.get("faults") or {})
+        no_close_expected = "shutdown" in injected or "close" in injected      # shutdown()/close() itself was made to fail
         if fault_before_connected and last["name"] != "connect_fail":
             return "wrong_terminal_event", "%s: expected ConnectFail, events %s" % (what, names)
         if "connected" in names and last["name"] != "disconnected":
@@ -181,6 +185,13 @@ class C09(Prop):
             if not st0.released:
                 return "socket_not_released", "%s: socket %d (address %d) neither closed nor finalised; events %s" % (
                     what, st0.sid, st0.addr_index, names)
+            # "the socket is closed": close() must have been CALLED; finalisation of the socket object alone counts only
+            # where close() cannot be reached the documented way (after a transport failure shutdown() fails with
+            # ENOTCONN and lomond skips close(); a socket that never connected; a shutdown()/close() made to fail)
+            # (judged for the socket of an established connection - before Connected a socket that fails is dropped)
+            if "connected" in names and st0 is tr.sim.socks[-1] and not st0.closed and st0.connected and not st0.broken \
+                    and not no_close_expected:
+                return "socket_not_closed", "%s: socket %d was still usable but close() was never called on it (shutdown "                     "called: %s); events %s" % (what, st0.sid, st0.shutdown_called, names)
         for rec in tr.actions:
             if rec["result"] != "ok" and "WebSocketError" not in rec.get("mro", []):
                 return "send_raised_non_websocket_error", "%s: %s raised %s: %s" % (
